@@ -146,8 +146,11 @@ func (check) Groups(tier string, seed int64) []string {
 	for i := 0; i < n; i += chunk {
 		g = append(g, fmt.Sprintf("thrift/pairs/%d-%d", i, i+chunk))
 	}
+	g = append(g, protoGroups()...)
 	return g
 }
+
+func nThriftGroups() int { return (len(pairs()) + chunk - 1) / chunk }
 
 type cdesc struct {
 	Pair    string `json:"pair"`
@@ -219,6 +222,10 @@ func addUnknown(v *tbin.Val) {
 }
 
 func (check) Enumerate(tier string, seed int64, group int, yield func(core.Case) bool) {
+	if group >= nThriftGroups() {
+		protoEnumerate(group-nThriftGroups(), yield)
+		return
+	}
 	ps := pairs()
 	lo, hi := group*chunk, group*chunk+chunk
 	if hi > len(ps) {
